@@ -72,19 +72,51 @@ func (z *Decimal) GobDecode(buf []byte) error {
 		return fmt.Errorf("Decimal.GobDecode: encoding version %d not supported", buf[0])
 	}
 
+	if len(buf) < 6 {
+		return fmt.Errorf("Decimal.GobDecode: buffer too small")
+	}
+
+	// decode and validate everything before touching z
+	b := buf[1]
+	mode := RoundingMode((b >> 5) & 7)
+	acc := Accuracy((b>>3)&3) - 1
+	fm := form((b >> 1) & 3)
+	prec := binary.BigEndian.Uint32(buf[2:])
+	if mode > ToPositiveInf || acc > Above || fm > inf {
+		return fmt.Errorf("Decimal.GobDecode: invalid attributes")
+	}
+	var exp int32
+	var mant dec
+	if fm == finite {
+		if len(buf) < 10 {
+			return fmt.Errorf("Decimal.GobDecode: buffer too small for finite value")
+		}
+		exp = int32(binary.BigEndian.Uint32(buf[6:]))
+		mant = mant.setBytes(buf[10:])
+		if len(mant) == 0 || mant[len(mant)-1] < _DB/10 {
+			return fmt.Errorf("Decimal.GobDecode: mantissa is not normalized")
+		}
+		for _, w := range mant {
+			if w >= _DB {
+				return fmt.Errorf("Decimal.GobDecode: invalid mantissa word")
+			}
+		}
+		if uint64(len(mant))*_DW-uint64(mant.trailingZeroDigits()) > uint64(prec) {
+			return fmt.Errorf("Decimal.GobDecode: mantissa exceeds precision")
+		}
+	}
+
 	oldPrec := z.prec
 	oldMode := z.mode
 
-	b := buf[1]
-	z.mode = RoundingMode((b >> 5) & 7)
-	z.acc = Accuracy((b>>3)&3) - 1
-	z.form = form((b >> 1) & 3)
+	z.mode = mode
+	z.acc = acc
+	z.form = fm
 	z.neg = b&1 != 0
-	z.prec = binary.BigEndian.Uint32(buf[2:])
-
-	if z.form == finite {
-		z.exp = int32(binary.BigEndian.Uint32(buf[6:]))
-		z.mant = z.mant.setBytes(buf[10:])
+	z.prec = prec
+	if fm == finite {
+		z.exp = exp
+		z.mant = z.mant.set(mant)
 	}
 
 	if oldPrec != 0 {
